@@ -132,6 +132,9 @@ def build_call(world, op, results):
         if op['measure'] not in ('OVERLAP', 'EDIT_DISTANCE') and \
                 'allow_empty' in op:
             kw['allow_empty'] = op['allow_empty']
+        if op.get('same_out_object') and 'l_out_attrs' in kw and \
+                kw.get('l_out_attrs') == kw.get('r_out_attrs'):
+            kw['r_out_attrs'] = kw['l_out_attrs']     # the very same list
         kw.update(nj)
         return fn, kw
     if kind == 'filter_tables':
